@@ -616,7 +616,7 @@ def split_variants(rng, data, limit):
 def text_plan(tier):
     """(code point alphabet, max string length, max number of chunkings per byte string)"""
     if tier == "quick":
-        return [(CPS[:8], 2, 32)]
+        return [(CPS[:8], 2, 16)]
     return [(CPS, 2, 256), (CPS[:6], 3, 64)]
 
 
@@ -659,7 +659,7 @@ def text_cases(rng, tier):
     for enc in (2, 3, 4):
         for ln in range(1, 5 + (0 if quick or enc != 2 else 1)):
             for data in itertools.product(U16_BYTES, repeat=ln):
-                if quick and ln == 4 and enc != 2 and data[0] not in (0x00, 0xD8, 0xDC, 0x41):
+                if quick and ln == 4 and (enc != 2 or data[0] not in (0x00, 0xD8, 0xDC, 0x41, 0xFF, 0xFE)):
                     continue
                 yield TextRun(enc, [list(data)], drain_ops(1))
                 if ln > 1:
@@ -842,7 +842,7 @@ def check(tier: str) -> int:
             sb.add(buf_from_replay(c))
             n_corpus += 1
     bounds = []
-    plan = [(3, 3, 2)] if quick else [(4, 3, 2), (2, 2, 3)]
+    plan = [(3, 2, 2)] if quick else [(4, 3, 2), (2, 2, 3)]
     t_ex0 = time.time()
     n_ex = 0
     for (maxlen, maxn, seqlen) in plan:
@@ -945,7 +945,7 @@ def check(tier: str) -> int:
                                        "utf8_byte_alphabet": [hex(b) for b in U8_BYTES],
                                        "utf8_sequences_upto": 3 if quick else 4,
                                        "utf16_byte_alphabet": [hex(b) for b in U16_BYTES],
-                                       "utf16_sequences_upto": "4 (utf-16, -le, -be)" if quick else "5 (utf-16), 4 (-le, -be)",
+                                       "utf16_sequences_upto": "3 (utf-16, -le, -be), 4 for utf-16 with first byte in 00 41 D8 DC FE FF" if quick else "5 (utf-16), 4 (-le, -be)",
                                        "encodings": ENCODINGS}},
         "random_cases": {"buffered": n_rand + 1, "text": 1500 if quick else 20000},
         "corpus_cases": n_corpus,
